@@ -244,6 +244,14 @@ def make_poly_spec(
                 col.append(f"{prefix}{used}")
                 used += 1
         slots.append(col)
+    exps = [list(e) for e in exps]
+    if mode == "raw" and len(exps) > 1 and rng.random() < 0.3:
+        # storage order of the terms is not part of a polynomial's value: raw operands keep whatever order they are given
+        # (variable(), monomial(), dict construction all produce non-lexicographic orders)
+        order = list(range(len(exps)))
+        rng.shuffle(order)
+        exps = [exps[i] for i in order]
+        slots = [slots[i] for i in order]
     return {"kind": "poly", "names": list(names), "exps": exps, "shape": list(shape), "slots": slots, "mode": mode}
 
 
